@@ -22,7 +22,7 @@
 (* not fixed by the property and is normalised away by the check.         *)
 EXTENDS Values, SequencesExt
 
-CONSTANT Family     \* "hand" | "gen": which family of worlds is explored
+CONSTANT Family     \* "hand" | "gen" | "vol": which family of worlds is explored
 
 GRow(id, f)  == [id |-> id, f |-> f]
 GVM(p, l, t) == [prefix |-> p, label |-> l, table |-> t]
@@ -189,7 +189,18 @@ GenWorldOf(lt) == GWorld("gen",
   <<GEM("e1", "K1", "p", "pq", "LT", "src", "dst"), GEM("e2", "K2", "pq", "p", "LT", "dst", "src"), GEM("e3", "K1", "p", "p", "LT", "src", "dst")>>)
 GenWorlds == LET lts == SetToSeq(GLinkTables) IN [i \in DOMAIN lts |-> GenWorldOf(lts[i])]
 
-WorldFamily == IF Family = "hand" THEN HandWorlds ELSE GenWorlds
+------------------------------------------------------------------------
+(* volume family: one vertex with VolN links into a second table, once   *)
+(* with unrelated prefixes and once with prefixes that are prefixes of   *)
+(* one another (every looked-up id "pq<k>" then also matches prefix "p")  *)
+VolN == 150
+VolRows  == [k \in 1..VolN |-> GRow(ToString(k), [x |-> N(k)])]
+VolLinks == [k \in 1..VolN |-> GRow("r" \o ToString(k), [src |-> S("1"), dst |-> S(ToString(k))])]
+WVol(name, p, q) == GWorld(name, [T1 |-> <<GRow("1", FB)>>, T2 |-> VolRows, LT |-> VolLinks],
+                           <<GVM(p, "L1", "T1"), GVM(q, "L2", "T2")>>, <<GEM("e1", "K1", p, q, "LT", "src", "dst")>>)
+VolWorlds == <<WVol("vol-flat", "p:", "q:"), WVol("vol-nested", "p", "pq")>>
+
+WorldFamily == CASE Family = "hand" -> HandWorlds [] Family = "gen" -> GenWorlds [] Family = "vol" -> VolWorlds
 
 ASSUME \A i \in DOMAIN WorldFamily : GWellFormed(WorldFamily[i]) /\ GBothDirections(WorldFamily[i])
 
